@@ -1272,7 +1272,7 @@ func (g *DocGen) Swagger(path []string) obj {
 		seen := map[string]bool{}
 		for i := 0; i < n; i++ {
 			t := g.Tag(sub(path, "tags", fmt.Sprint(len(a))), 1)
-			key := oracle.Text(t)
+			key := fmt.Sprint(t["name"]) // tag names are unique (two tags differing only in members the codec is known to drop would collide)
 			if seen[key] {
 				g.dropKinds(sub(path, "tags", fmt.Sprint(len(a))))
 				continue
